@@ -29,7 +29,7 @@ def is_flags_recv(e):
     if e_has_field(e, FLAGS_F):
         return True
     for r in e_roots(e):
-        if r[0] == "arg" and r[2] == "flags":
+        if r[0] == "arg":  # a `&mut Flags` parameter (the callee path already pins the type to the dispatcher's Flags)
             return True
     return False
 
